@@ -3,6 +3,7 @@ import Proofs.Lemmas.AliasPref
 import Proofs.Lemmas.AliasClass
 import Proofs.Lemmas.AliasFail
 import Proofs.Lemmas.AliasCtor
+import Proofs.Lemmas.AliasLabel
 /-
 C18 — An alias is indistinguishable from the variable it names.
 
@@ -964,6 +965,120 @@ theorem ctor_reencode {β : Type} [DecidableEq β] (f : α → β) (hf : ∀ x y
   simp only [Function.comp]
   rw [resolve_reMap f hf]
 
+/-! ## 10. Labels that are spelt like names
+
+`model[name, label]`, `model[name, a:b:c]`: the mixin resolves the FIRST component of the key and nothing else.  In
+§2 the rest of the key is a value of the opaque type `P`, so `alias_transparent_step` already says that the mixin
+cannot look at it — but there a label cannot *be* a name.  Here the span is a list of names (`labelOps span`,
+`FsicModel/AliasLabel.lean`): a label may be an alias, a variable, the target of an alias, anything.  The statements
+below hold for EVERY label and every slice bound — no hypothesis keeps them apart from `keys a`. -/
+
+/-- **The label is not resolved** — whatever it is spelt like (`ix` may mention aliases, variables, targets): a
+    label-indexed read or write through any name is the plain container's operation on `resolve name` with the
+    SAME index. -/
+theorem label_not_resolved {β : Type} (span : List α) {a : AMap α} (hc : chained a = false)
+    {s : Store α (List β) (LPay α β)} (hinv : Inv a s) (n : α) (ix : LIx α) :
+    aliased (labelOps span) a s (.getAt n (.ix ix)) = base (labelOps span) s (.getAt (resolve a n) (.ix ix)) ∧
+    ∀ p, aliased (labelOps span) a s (.setAt n (.ix ix) p) = base (labelOps span) s (.setAt (resolve a n) (.ix ix) p) :=
+  ⟨alias_transparent_step (labelOps span) hc hinv (.getAt n (.ix ix)),
+   fun p => alias_transparent_step (labelOps span) hc hinv (.setAt n (.ix ix) p)⟩
+
+/-- … in particular for a label that IS an alias (`l ∈ keys a`, pointing somewhere else): the access goes to the
+    period labelled `l`, and differs from nothing the plain container does with `l`. -/
+theorem alias_named_label_not_resolved {β : Type} (span : List α) {a : AMap α} (hc : chained a = false)
+    {s : Store α (List β) (LPay α β)} (hinv : Inv a s) (n l : α) (_hl : l ∈ keys a) (_hne : resolve a l ≠ l) :
+    aliased (labelOps span) a s (.getAt n (.ix (.label l))) =
+      base (labelOps span) s (.getAt (resolve a n) (.ix (.label l))) :=
+  (label_not_resolved span hc hinv n (.label l)).1
+
+/-- **Absolutely**: `m[name, l]` is element `span.index(l)` of the series stored under `resolve name`, and
+    `m[name, l] = c` changes exactly that cell of exactly that series; a label that is not in the span is `KeyError`
+    and changes nothing — even when `resolve l` is in the span. -/
+theorem label_access_absolute {β : Type} (span : List α) {a : AMap α} (hc : chained a = false)
+    {s : Store α (List β) (LPay α β)} (hinv : Inv a s) (n l : α) {v : List β}
+    (hv : lookup s.vars (resolve a n) = some v) :
+    (∀ i, locate span l = some i → ∀ (hi : i < v.length),
+      span[i]? = some l ∧
+      aliased (labelOps span) a s (.getAt n (.ix (.label l))) = (s, .value (.scalar v[i])) ∧
+      ∀ c, aliased (labelOps span) a s (.setAt n (.ix (.label l)) (.scalar c)) =
+        ({ s with vars := update s.vars (resolve a n) (v.set i c) }, .done)) ∧
+    (l ∉ span →
+      aliased (labelOps span) a s (.getAt n (.ix (.label l))) = (s, .err .keyError) ∧
+      ∀ p, aliased (labelOps span) a s (.setAt n (.ix (.label l)) p) = (s, .err .keyError)) := by
+  obtain ⟨hg, hs⟩ := label_not_resolved span hc hinv n (.label l)
+  constructor
+  · intro i hl hi
+    refine ⟨(locate_spec hl).1, ?_, ?_⟩
+    · rw [hg]; exact base_getAt_label span s hv hl hi
+    · intro c; rw [hs]; exact base_setAt_label span s c hv hl hi
+  · intro hl
+    have hn := locate_none_iff.mpr hl
+    refine ⟨?_, ?_⟩
+    · rw [hg]; exact base_getAt_label_missing span s hv hn
+    · intro p; rw [hs]; exact base_setAt_label_missing span s p hv hn
+
+/-- Slices: both bounds are located as they are spelt (a missing bound is the first / last label), the interval is
+    closed, a scalar goes into exactly the selected cells of exactly the series stored under `resolve name`. -/
+theorem label_slice_absolute {β : Type} (span : List α) {a : AMap α} (hc : chained a = false)
+    {s : Store α (List β) (LPay α β)} (hinv : Inv a s) (n : α) (lo hi : Option α) {st : Nat} (hst : st ≠ 0)
+    {v : List β} (hv : lookup s.vars (resolve a n) = some v) {i j : Nat}
+    (hlo : locStart span lo = some i) (hhi : locStop span hi = some j) :
+    aliased (labelOps span) a s (.getAt n (.ix (.slice lo hi st))) =
+      (s, .value (.list ((slicePositions i j st).filterMap fun k => v[k]?))) ∧
+    ∀ c, aliased (labelOps span) a s (.setAt n (.ix (.slice lo hi st)) (.scalar c)) =
+      ({ s with vars := update s.vars (resolve a n) (setAll v (slicePositions i j st) c) }, .done) := by
+  obtain ⟨hg, hs⟩ := label_not_resolved span hc hinv n (.slice lo hi st)
+  refine ⟨?_, ?_⟩
+  · rw [hg]; exact base_getAt_slice span s lo hi hv hlo hhi hst
+  · intro c; rw [hs]; exact base_setAt_slice span s lo hi c hv hlo hhi hst
+
+/-- What a mixin that resolves every `str` of the key would do instead: the access lands on the label's TARGET. -/
+theorem resolving_labels_reads_target {β : Type} (span : List α) (a : AMap α) (s : Store α (List β) (LPay α β))
+    (n : α) (ix : LIx α) :
+    aliasedAll span a s (.getAt n (.ix ix)) = aliased (labelOps span) a s (.getAt n (.ix (ix.map (resolve a)))) ∧
+    ∀ p, aliasedAll span a s (.setAt n (.ix ix) p) =
+      aliased (labelOps span) a s (.setAt n (.ix (ix.map (resolve a))) p) :=
+  ⟨rfl, fun _ => rfl⟩
+
+/-- **… and that is a different container** whenever the span has a label `l` whose target `resolve a l` is another
+    period holding another value (read: another result; write: another cell), or is no period at all (`KeyError`
+    where the code succeeds). -/
+theorem resolving_labels_differs {β : Type} (span : List α) {a : AMap α} (hc : chained a = false)
+    {s : Store α (List β) (LPay α β)} (hinv : Inv a s) (n l : α) {v : List β}
+    (hv : lookup s.vars (resolve a n) = some v) {i : Nat} (hl : locate span l = some i) (hi : i < v.length) :
+    (∀ j (hj : j < v.length), locate span (resolve a l) = some j → v[i] ≠ v[j] →
+      aliasedAll span a s (.getAt n (.ix (.label l))) ≠ aliased (labelOps span) a s (.getAt n (.ix (.label l)))) ∧
+    (resolve a l ∉ span →
+      aliasedAll span a s (.getAt n (.ix (.label l))) ≠ aliased (labelOps span) a s (.getAt n (.ix (.label l))) ∧
+      ∀ c, aliasedAll span a s (.setAt n (.ix (.label l)) (.scalar c)) ≠
+        aliased (labelOps span) a s (.setAt n (.ix (.label l)) (.scalar c))) := by
+  have habs := (label_access_absolute span hc hinv n l hv).1 i hl hi
+  constructor
+  · intro j hj hlj hne h
+    rw [(resolving_labels_reads_target span a s n (.label l)).1] at h
+    have h2 := ((label_access_absolute span hc hinv n (resolve a l) hv).1 j hlj hj).2.1
+    simp only [LIx.map] at h
+    rw [h2, habs.2.1] at h
+    injection h with _ h
+    injection h with h
+    injection h with h
+    exact hne h.symm
+  · intro hns
+    have hk := (label_access_absolute span hc hinv n (resolve a l) hv).2 hns
+    refine ⟨?_, ?_⟩
+    · intro h
+      rw [(resolving_labels_reads_target span a s n (.label l)).1] at h
+      simp only [LIx.map] at h
+      rw [hk.1, habs.2.1] at h
+      injection h with _ h
+      cases h
+    · intro c h
+      rw [(resolving_labels_reads_target span a s n (.label l)).2] at h
+      simp only [LIx.map] at h
+      rw [hk.2, habs.2.2 c] at h
+      injection h with _ h
+      cases h
+
 end Fsic.C18
 
 /-! ## Concrete instances that meet the hypotheses used above -/
@@ -1141,5 +1256,222 @@ example : ∀ x y, exCode x = exCode y → x = y := by intro x y h; unfold exCod
 example : instanceAliases (reMap exCode [(1, 0), (2, 1)]) = .returned [(102, 100), (104, 100)] ∧
     (instanceAliases [(1, 0), (2, 1)]).map (reMap exCode) = .returned [(102, 100), (104, 100)] ∧
     resolve (reMap exCode [(1, 0), (2, 0)]) (exCode 2) = exCode 0 := by decide
+
+/-! ### §10: a span whose labels are spelt like names -/
+
+/-- `ALIASES = {'GDP': 'Y', 'cons': 'C', 'k1': 'zzz'}`; the span is `['GDP', 'Y', 'C', 'p3', 'k1']`: an alias, its
+    target (a variable), another variable, a plain label, an alias of an undefined name. -/
+def exLabMap : AMap String := [("GDP", "Y"), ("cons", "C"), ("k1", "zzz")]
+def exLabSpan : List String := ["GDP", "Y", "C", "p3", "k1"]
+def exLabStore : Store String (List Int) (LPay String Int) :=
+  ⟨false, [("Y", [10, 11, 12, 13, 14]), ("C", [20, 21, 22, 23, 24])], []⟩
+
+-- hypotheses of `label_not_resolved` / `label_access_absolute` / `resolving_labels_differs`
+example : chained exLabMap = false ∧ Inv exLabMap exLabStore ∧ "GDP" ∈ keys exLabMap ∧ resolve exLabMap "GDP" ≠ "GDP" ∧
+    lookup exLabStore.vars (resolve exLabMap "GDP") = some [10, 11, 12, 13, 14] ∧ locate exLabSpan "GDP" = some 0 ∧
+    locate exLabSpan (resolve exLabMap "GDP") = some 1 ∧ resolve exLabMap "k1" ∉ exLabSpan := by
+  refine ⟨by decide, ⟨?_, ?_⟩, by decide, by decide, by decide, by decide, by decide, by decide⟩ <;>
+    (intro x hx; simp [Store.attrNames, exLabStore] at hx)
+
+-- the code: `m['GDP', 'GDP']` is element 0 of Y, `m['cons', 'GDP']` element 0 of C, `m['Y', 'k1']` element 4 of Y
+example : (aliased (labelOps exLabSpan) exLabMap exLabStore (.getAt "GDP" (.ix (.label "GDP")))).2 = .value (.scalar 10) ∧
+    (aliased (labelOps exLabSpan) exLabMap exLabStore (.getAt "cons" (.ix (.label "GDP")))).2 = .value (.scalar 20) ∧
+    (aliased (labelOps exLabSpan) exLabMap exLabStore (.getAt "Y" (.ix (.label "k1")))).2 = .value (.scalar 14) ∧
+    (aliased (labelOps exLabSpan) exLabMap exLabStore (.getAt "GDP" (.ix (.slice (some "GDP") (some "C") 1)))).2 =
+      .value (.list [10, 11, 12]) ∧
+    (aliased (labelOps exLabSpan) exLabMap exLabStore (.getAt "GDP" (.ix (.slice none (some "k1") 2)))).2 =
+      .value (.list [10, 12, 14]) ∧
+    (aliased (labelOps exLabSpan) exLabMap exLabStore (.setAt "GDP" (.ix (.label "GDP")) (.scalar 99))).1.vars =
+      [("Y", [99, 11, 12, 13, 14]), ("C", [20, 21, 22, 23, 24])] := by decide
+
+/-- **Negation-style witness**: the mixin that also resolves labels reads element 1 (the period labelled `Y`) where
+    the code reads element 0, raises `KeyError` for the label `k1` (its target `zzz` is no period), selects another
+    slice and writes another cell. -/
+theorem resolving_labels_differs_at_witness :
+    (aliasedAll exLabSpan exLabMap exLabStore (.getAt "GDP" (.ix (.label "GDP")))).2 = .value (.scalar 11) ∧
+    (aliased (labelOps exLabSpan) exLabMap exLabStore (.getAt "GDP" (.ix (.label "GDP")))).2 = .value (.scalar 10) ∧
+    (aliasedAll exLabSpan exLabMap exLabStore (.getAt "Y" (.ix (.label "k1")))).2 = .err .keyError ∧
+    (aliased (labelOps exLabSpan) exLabMap exLabStore (.getAt "Y" (.ix (.label "k1")))).2 = .value (.scalar 14) ∧
+    (aliasedAll exLabSpan exLabMap exLabStore (.getAt "C" (.ix (.slice (some "GDP") (some "C") 1)))).2 =
+      .value (.list [21, 22]) ∧
+    (aliased (labelOps exLabSpan) exLabMap exLabStore (.getAt "C" (.ix (.slice (some "GDP") (some "C") 1)))).2 =
+      .value (.list [20, 21, 22]) ∧
+    (aliasedAll exLabSpan exLabMap exLabStore (.setAt "cons" (.ix (.label "GDP")) (.scalar 99))).1.vars =
+      [("Y", [10, 11, 12, 13, 14]), ("C", [20, 99, 22, 23, 24])] ∧
+    (aliased (labelOps exLabSpan) exLabMap exLabStore (.setAt "cons" (.ix (.label "GDP")) (.scalar 99))).1.vars =
+      [("Y", [10, 11, 12, 13, 14]), ("C", [99, 21, 22, 23, 24])] ∧
+    aliasedAll exLabSpan exLabMap exLabStore ≠ aliased (labelOps exLabSpan) exLabMap exLabStore := by
+  refine ⟨by decide, by decide, by decide, by decide, by decide, by decide, by decide, by decide, ?_⟩
+  intro h
+  have := congrArg (fun f => (f (.getAt "GDP" (.ix (.label "GDP")))).2) h
+  revert this
+  decide
+
+-- labels that name nothing behave as before, and a label outside the span is KeyError on both
+example : (aliasedAll exLabSpan exLabMap exLabStore (.getAt "GDP" (.ix (.label "p3")))).2 =
+      (aliased (labelOps exLabSpan) exLabMap exLabStore (.getAt "GDP" (.ix (.label "p3")))).2 ∧
+    (aliased (labelOps exLabSpan) exLabMap exLabStore (.getAt "GDP" (.ix (.label "cons")))).2 = .err .keyError := by decide
+
+
+/-! ## Non-vacuity (review): the theorems with the most hypotheses, invoked at the concrete instances above -/
+
+-- §1  shorten_exits (hwf, hN, hf, hpos) / shorten_rounds (hwf, h) at a chain of three
+def exM3 : AMap String := [("a", "b"), ("b", "c"), ("c", "Y")]
+theorem exM3_wf : WF exM3 := by unfold WF keys; decide
+example : ∃ r, r ≤ 3 ∧ shortenLoop 4 0 exM3 = .exited r (mapTo exM3 3) :=
+  shorten_exits exM3_wf (N := 3) (passes := 4) (by decide) (by decide) (by decide)
+example : [("a", "Y"), ("b", "Y"), ("c", "Y")] = mapTo exM3 (2 ^ 2) ∧ ¬ Stays exM3 (2 ^ 2) ∧ ∀ i, i < 2 → Stays exM3 (2 ^ i) :=
+  shorten_rounds exM3_wf (passes := 4) (r := 2) (by decide)
+-- instance_aliases_shortened / declared_alias_resolves_alike / chain_label_resolves at the declared chain `exChain`
+theorem exChain_wf : WF exChain := by unfold WF keys; decide
+theorem exChain_inst : instanceAliases exChain = .returned exInst := by decide
+example : WF exInst ∧ chained exInst = false ∧ keys exInst = keys (dropSelf exChain) :=
+  ⟨(instance_aliases_shortened exChain_wf exChain_inst).1, (instance_aliases_shortened exChain_wf exChain_inst).2.1,
+   (instance_aliases_shortened exChain_wf exChain_inst).2.2.1⟩
+example : resolve exInst "out" = resolve exInst "GDP" ∧ resolve exInst "out" = "Y" :=
+  ⟨(declared_alias_resolves_alike exChain_wf exChain_inst (x := "out") (y := "GDP") (by decide)).1, by decide⟩
+example : resolve exInst (follow exChain 2 "o3") = resolve exInst "o3" ∧ follow exChain 2 "o3" ≠ "o3" :=
+  ⟨chain_label_resolves exChain_wf exChain_inst "o3" 2, by decide⟩
+
+-- §2/§3  alias_transparent / alias_indistinguishable / alias_no_storage: hc, hinv (and hfg) with a real history
+def exA : AMap String := [("GDP", "Y"), ("income", "Y")]
+theorem exA_inv : Inv exA exS := by unfold Alias.Inv; decide
+def exSwap (n : String) : String := if n = "GDP" then "income" else n
+theorem exSwap_ok : ∀ n, resolve exA (id n) = resolve exA (exSwap n) := by
+  intro n
+  by_cases h : n = "GDP"
+  · subst h; decide
+  · simp [exSwap, h]
+def exOps : List (Op String Nat) := [.setAt "GDP" 0 9, .setAttr "GDP" 5, .getItem "GDP", .replaceValues [("GDP", 6), ("C", 1)]]
+example : run (aliased exE exA) exS exOps = run (base exE) exS (exOps.map (Op.mapName (resolve exA))) :=
+  alias_transparent exE (by decide) exA_inv exOps
+example : run (aliased exE exA) exS (exOps.map (Op.mapName id)) = run (aliased exE exA) exS (exOps.map (Op.mapName exSwap)) ∧
+    exSwap "GDP" ≠ id "GDP" :=
+  ⟨alias_indistinguishable exE (by decide) exA_inv id exSwap exSwap_ok exOps, by decide⟩
+example : (run (aliased exE exA) exS exOps).1.index = ["Y", "C"] :=
+  (alias_no_storage exE (a := exA) (by decide) exS exOps).1
+
+-- §4  export: rename_only / rename_injective / rename_prefers / rename_total_after_check / unaliased_label_kept
+theorem exInst_wf : WF exInst := by unfold WF keys; decide
+theorem exExport : exportCols strLe exInst ["out"] [("Y", 1), ("C", 2), ("G", 3)] = some [("out", 1), ("cons", 2), ("G", 3)] := by
+  decide
+example : ([("out", 1), ("cons", 2), ("G", 3)] : List (String × Nat)).map Prod.snd = [1, 2, 3] :=
+  (rename_only strLe exInst ["out"] _ _ exExport).1
+example : (([("out", 1), ("cons", 2), ("G", 3)] : List (String × Nat)).map Prod.fst).Nodup :=
+  rename_injective strLe exInst_wf ["out"] _ _ exExport (by decide) (by decide)
+example : ∃ f, exportCols strLe exInst ["out"] [("Y", 1), ("C", 2), ("G", 3)] = some (renameDf f [("Y", 1), ("C", 2), ("G", 3)]) ∧
+    (∀ p t, p ∈ ["out"] → (p, t) ∈ exInst → f t = p) ∧ (∀ t, t ∈ ["out"] → f t = t) :=
+  rename_prefers linOrd_strLe exInst_wf (by decide) (by decide) (by decide) _
+example : exportCols strLe exInst ["out"] [("Y", 1), ("C", 2), ("G", 3)] ≠ none :=
+  rename_total_after_check linOrd_strLe exInst_wf (by decide) (by decide) _
+example : ([("out", 1), ("cons", 2), ("G", 3)] : List (String × Nat))[2].1 = "G" :=
+  unaliased_label_kept strLe exInst ["out"] _ _ exExport 2 (by decide) (by decide) (by decide)
+-- rename_rejects_ambiguous: ho, hpq, hp, hq, hpt, hqt (two preferred aliases of `Y`)
+example : exportCols strLe [("GDP", "Y"), ("income", "Y"), ("cons", "C")] ["income", "GDP"] [("Y", 1), ("C", 2)] = none :=
+  rename_rejects_ambiguous linOrd_strLe _ (p := "income") (q := "GDP") (t := "Y") (by decide) (by decide) (by decide)
+    (by decide) (by decide) _
+-- §5  rename_only_opts: `h`
+example : ∃ out, exportOpts strLe [("GDP", "Y"), ("wealth", "_H")] [] exInternal {} exVars ("status", 8) ("iterations", 9) =
+    some out ∧ out.map Prod.snd = (baseFrame exInternal {} exVars ("status", 8) ("iterations", 9)).map Prod.snd ∧
+    out.length = 4 := by
+  cases h : exportOpts strLe [("GDP", "Y"), ("wealth", "_H")] [] exInternal {} exVars ("status", 8) ("iterations", 9) with
+  | none => exact absurd h (by decide)
+  | some out =>
+    have := rename_only_opts strLe _ [] exInternal {} exVars ("status", 8) ("iterations", 9) out h
+    exact ⟨out, rfl, this.1, by rw [this.2.2.1]; decide⟩
+
+-- §6  classes: class_aliases_nearest_declaration (hwf, hd) / reassignment_leaves_other_declarations (hne, hd, hm) /
+-- reassigned_aliases_used (hc) / existing_instances_keep_their_map (h)
+def exCls : Classes String := (runEvents World.init exClasses).cls
+theorem exCls_tbl : exCls.tbl =
+    [⟨none, some [("GDP", "Y")], none⟩, ⟨some 0, some [("income", "Y")], some ["income"]⟩, ⟨some 1, none, none⟩,
+     ⟨some 0, some [("out", "Y"), ("o2", "out")], none⟩] := by decide
+theorem exCls_wf : TableWF exCls.tbl := by
+  intro c d p hc hp
+  rw [exCls_tbl] at hc
+  match c with
+  | 0 => simp at hc; subst hc; simp at hp
+  | 1 => simp at hc; subst hc; simp at hp; omega
+  | 2 => simp at hc; subst hc; simp at hp; omega
+  | 3 => simp at hc; subst hc; simp at hp; omega
+  | n + 4 => simp at hc
+-- the grandchild (class 2) declares nothing: it uses its parent's (class 1) map
+example : classAliases exCls 2 = classAliases exCls 1 ∧ classAliases exCls 1 = [("income", "Y")] :=
+  ⟨(class_aliases_nearest_declaration exCls_wf (c := 2) (d := ⟨some 1, none, none⟩) (by rw [exCls_tbl]; rfl)).2.1 1 rfl rfl,
+   (class_aliases_nearest_declaration exCls_wf (c := 1) (d := ⟨some 0, some [("income", "Y")], some ["income"]⟩)
+     (by rw [exCls_tbl]; rfl)).1 _ rfl⟩
+example : classAliases (stepClasses exCls (.setAliases 0 [("output", "Y")])) 1 = [("income", "Y")] ∧
+    classAliases (stepClasses exCls (.setAliases 0 [("output", "Y")])) 0 = [("output", "Y")] :=
+  ⟨reassignment_leaves_other_declarations exCls 0 1 _ _ (by decide)
+     (d := ⟨some 0, some [("income", "Y")], some ["income"]⟩) (by rw [exCls_tbl]; rfl) rfl,
+   reassigned_aliases_used exCls 0 _ (by rw [exCls_tbl]; decide)⟩
+example : (runEvents (runEvents World.init (exClasses ++ [.new 0])) [.setAliases 0 [("output", "Y")], .new 0]).insts[0]? =
+    some (.ok 0 [("GDP", "Y")] []) :=
+  existing_instances_keep_their_map _ _ 0 _ (by decide)
+
+-- §7  failed_op_preserves_state (hf) / failed_replace_is_prefix (hc, hf) / plain_twin_agrees / plain_twin_history
+example : (xstep exEnv (exObj true) (.acc (.setAttr "GDPP" 5))).1 = exObj true :=
+  (failed_op_preserves_state exEnv (exObj true) (.acc (.setAttr "GDPP" 5)) (by decide)).1 rfl
+example : ∃ pre kv post, [("GDP", 6), ("nope", 1), ("C", 9)] = pre ++ kv :: post ∧
+    (xstep exEnv (exObj false) (.acc (.replaceValues pre))).2.failed = false ∧
+    (xstep exEnv (exObj false) (.acc (.replaceValues [("GDP", 6), ("nope", 1), ("C", 9)]))).1 =
+      (xstep exEnv (exObj false) (.acc (.replaceValues pre))).1 :=
+  let ⟨pre, kv, post, h1, h2, h3, _⟩ := failed_replace_is_prefix exEnv (exObj false) (by decide)
+    [("GDP", 6), ("nope", 1), ("C", 9)] (by decide)
+  ⟨pre, kv, post, h1, h2, h3⟩
+theorem exObj_inv : Inv (exObj true).aliases (exObj true).store := by unfold Alias.Inv; decide
+def exXOps : List (XOp String Nat) :=
+  [.acc (.setItem "GDP" 4), .acc (.setAttr "GDPP" 5), .eval ["income"], .acc (.getItem "nope"), .addVariable "Y" 1,
+   .acc (.setAt "income" 1 8)]
+example : (xrun exEnv (exObj true).plain (exXOps.map (XOp.mapName (resolve (exObj true).aliases)))).1.store =
+    (xrun exEnv (exObj true) exXOps).1.store :=
+  (plain_twin_history exEnv (a := (exObj true).aliases) (by decide) (plain_is_twin _) exObj_inv exXOps (by decide)).2.1
+example : (xstep exEnv (exObj true) (.acc (.setItem "GDP" 4))).2 =
+    (xstep exEnv (exObj true).plain ((XOp.acc (.setItem "GDP" 4)).mapName (resolve (exObj true).aliases))).2 :=
+  (plain_twin_agrees exEnv (a := (exObj true).aliases) (by decide) (plain_is_twin _) exObj_inv _ (by decide)).1
+
+-- §8  from_dataframe_alias_columns (hnd) / from_dataframe_chain_labels (hwf, h, hfg) / export_import_round_trip
+-- (hwf, hx, hg) / round_trip_same_values (hwf, hnd, hg, hx)
+example : fromDataframeAliased exInst false ["Y", "C", "G", "H"] (0 : Nat) [("o3", 5), ("cons", 6)] [("G", 7)] =
+    fromDataframeBase false ["Y", "C", "G", "H"] 0 (relabel (resolve exInst) [("o3", 5), ("cons", 6)])
+      (relabel (resolve exInst) [("G", 7)]) :=
+  (from_dataframe_alias_columns exInst false _ 0 _ _ (by decide)).1
+example : fromDataframeAliased exInst false ["Y", "C"] (0 : Nat) (relabel id [("o3", 5), ("cons", 6)]) [] =
+    fromDataframeAliased exInst false ["Y", "C"] 0 (relabel (follow exChain 2) [("o3", 5), ("cons", 6)]) [] ∧
+    relabel (follow exChain 2) [("o3", (5 : Nat)), ("cons", 6)] = [("GDP", 5), ("C", 6)] :=
+  ⟨(from_dataframe_chain_labels exChain_wf exChain_inst id (follow exChain 2) (fun n => ⟨2, rfl⟩) false _ 0 _).1, by decide⟩
+example : fromDataframeAliased exInst true ["Y", "C", "G"] (0 : Nat) [("out", 1), ("cons", 2), ("G", 3)] [] =
+    fromDataframeBase true ["Y", "C", "G"] 0 [("Y", 1), ("C", 2), ("G", 3)] [] :=
+  export_import_round_trip strLe exInst_wf ["out"] true _ 0 _ _ exExport (by decide)
+example : roundTrip strLe exInst ["out"] true ["Y", "C", "G"] (0 : Nat) (["Y", "C", "G"].map fun n => (n, n.length)) =
+    some (.ok (["Y", "C", "G"].map fun n => (n, n.length))) :=
+  round_trip_same_values strLe exInst_wf ["out"] true (by decide) 0 (fun n => n.length) (by decide) (by decide)
+
+-- §9  re-encoding: `hf` (an injective code) with a chain
+theorem exCode_inj : ∀ x y, exCode x = exCode y → x = y := by intro x y h; unfold exCode at h; omega
+example : resolve (reMap exCode [(1, 0), (2, 1)]) (exCode 2) = exCode 1 := by
+  rw [resolve_reencode exCode exCode_inj]; decide
+example : instanceAliases (reMap exCode [(1, 0), (2, 1)]) = (instanceAliases [(1, 0), (2, 1)]).map (reMap exCode) :=
+  constructor_reencode exCode exCode_inj _
+
+-- §10  label_access_absolute / label_slice_absolute / resolving_labels_differs / alias_named_label_not_resolved
+theorem exLab_inv : Inv exLabMap exLabStore := by
+  constructor <;> (intro x hx; simp [Store.attrNames, exLabStore] at hx)
+example : aliased (labelOps exLabSpan) exLabMap exLabStore (.getAt "GDP" (.ix (.label "C"))) =
+    (exLabStore, .value (.scalar 12)) :=
+  ((label_access_absolute exLabSpan (a := exLabMap) (by decide) exLab_inv "GDP" "C" (v := [10, 11, 12, 13, 14]) (by decide)).1
+    2 (by decide) (by decide)).2.1
+example : aliased (labelOps exLabSpan) exLabMap exLabStore (.getAt "cons" (.ix (.slice (some "Y") none 2))) =
+    (exLabStore, .value (.list ((slicePositions 1 4 2).filterMap fun k => ([20, 21, 22, 23, 24] : List Int)[k]?))) ∧
+    ((slicePositions 1 4 2).filterMap fun k => ([20, 21, 22, 23, 24] : List Int)[k]?) = [21, 23] :=
+  ⟨(label_slice_absolute exLabSpan (a := exLabMap) (by decide) exLab_inv "cons" (some "Y") none (st := 2) (by decide)
+    (v := [20, 21, 22, 23, 24]) (by decide) (i := 1) (j := 4) (by decide) (by decide)).1, by decide⟩
+example : aliasedAll exLabSpan exLabMap exLabStore (.getAt "GDP" (.ix (.label "GDP"))) ≠
+    aliased (labelOps exLabSpan) exLabMap exLabStore (.getAt "GDP" (.ix (.label "GDP"))) :=
+  (resolving_labels_differs exLabSpan (a := exLabMap) (by decide) exLab_inv "GDP" "GDP" (v := [10, 11, 12, 13, 14])
+    (by decide) (i := 0) (by decide) (by decide)).1 1 (by decide) (by decide) (by decide)
+example : aliased (labelOps exLabSpan) exLabMap exLabStore (.getAt "cons" (.ix (.label "GDP"))) =
+    base (labelOps exLabSpan) exLabStore (.getAt (resolve exLabMap "cons") (.ix (.label "GDP"))) :=
+  alias_named_label_not_resolved exLabSpan (by decide) exLab_inv "cons" "GDP" (by decide) (by decide)
 
 end Fsic.C18
